@@ -494,7 +494,8 @@ def rule_name_agree(ctx, ts):
         "C: a preprocessor identifier that embeds a DSDL field name (<T>_<field>_ARRAY_CAPACITY_, ...) is formed from the same "
         "name expression where it is #defined and where it is used - resolved through macro parameters (call-site arguments) "
         "and through re-bindings of a parameter inside the macro; a use built from id(name) while the definition uses the raw "
-        "name names a macro that does not exist for every field whose name is stropped",
+        "name names a macro that does not exist for every field whose name is stropped.  Python: the keyword parameters __init__ "
+        "declares and the keyword arguments the generated deserializer passes enumerate the same unfiltered fields_except_padding",
     )
     from nvsa import j2text
     N = ts.nodes
@@ -1102,6 +1103,124 @@ def rule_py_imports(ctx, px):
            "" if bool(appends) and only_dedup and not skips else f"append guards {appends}, skips {len(skips)}", f.node.lineno)
 
 
+C_KEYWORDS = set("if else for while do return break continue sizeof const static volatile unsigned signed struct union enum typedef void goto switch case "
+                 "default inline extern register auto restrict".split())
+C_TYPE_WORD = re.compile(r"^(?:Pz\d+z|\w+_t|bool|int|char|float|double|long|short|unsigned|signed|size_t)$")
+C_DECL = re.compile(r"^(?:(?:const|static|volatile)\s+)*((?:Pz\d+z|\w+_t|bool|int|char|float|double|size_t|unsigned(?:\s+\w+)?))"
+                    r"(?:\s*\*+\s*(?:const\s+)?|\s+(?:const\s+)?)([A-Za-z_]\w*)\s*(=[^=].*|\[.*)?$", re.S)
+
+
+def _c_undeclared(text, params):
+    """identifiers of a rendered C function body that are used before (or without) a declaration on this path.  Statement-level scan:
+    comments, string literals and preprocessor lines are dropped; a statement `<type> [*] name [= ...]` declares; member names, called
+    names, macros in capitals, type words, placeholders of template expressions and the support library's names are not locals."""
+    text = re.sub(r"(?m)^\s*#.*$", "", text)
+    text = re.sub(r"//[^\n]*", "", text)
+    text = re.sub(r"/\*.*?\*/", "", text, flags=re.S)
+    text = re.sub(r'"(?:\\.|[^"\\])*"', '""', text)
+    text = re.sub(r"%%|%[-+ #0]*\d*[a-zA-Z]", " ", text)
+    declared, out = set(), []
+    for m in re.finditer(r"[^;{}]+", text):
+        st = m.group(0)
+        d = C_DECL.match(st.strip())
+        declname = d.group(2) if d else None
+        for u in re.finditer(r"(?<![\w.])([A-Za-z_]\w*)\b(?!\s*\()", st):
+            name = u.group(1)
+            pre = st[:u.start()].rstrip()
+            if name in C_KEYWORDS or C_TYPE_WORD.match(name) or re.match(r"^[A-Z][A-Z0-9_]*$", name) or name.startswith("nunavut") or re.match(r"^Pz\d+z", name) \
+                    or name in ("true", "false", "NULL", "U", "UL", "ULL", "L", "LL", "F", "f") or pre.endswith(".") or pre.endswith("->"):
+                continue
+            if name == declname and not re.search(rf"\b{re.escape(name)}\b", pre):
+                continue      # the declarator itself
+            if name in params or name in declared:
+                continue
+            out.append(name)
+        if declname:
+            declared.add(declname)
+    return out
+
+
+def rule_c_scope(ctx, ts):
+    R = "R-C06-C-SCOPE"
+    ctx.rule(
+        R,
+        "C: inside the generated <T>_serialize_ / <T>_deserialize_ bodies every local the emitted statements (including asserted "
+        "expressions) refer to is declared earlier on the same rendered path: a statement that relies on a local declared in a branch "
+        "other paths do not take (the shortcut for empty types, an option switched off) is a header that does not compile for exactly "
+        "those inputs",
+    )
+    from nvsa import j2text
+    N = ts.nodes
+    defs = ts.get("c", "definitions.j2")
+    deftext = "".join(d.data for d in defs.ast.find_all(N.TemplateData))
+    n = 0
+    for which, top, fn in (("serialization.j2", "serialize", "_serialize_"), ("deserialization.j2", "deserialize", "_deserialize_")):
+        t = ts.get("c", which)
+        mac = ts.macro(t, top)
+        # parameter names of the function this body is placed in (from the signature in definitions.j2)
+        sig = re.search(re.escape(fn) + r"\(\s*(.*?)\)\s*\{", deftext, re.S)
+        if sig is None:
+            raise AnalysisError(f"anchor missing: signature of <T>{fn} in c/templates/definitions.j2")
+        params = {re.findall(r"[A-Za-z_]\w*", a)[-1] for a in sig.group(1).split(",") if re.findall(r"[A-Za-z_]\w*", a)}
+        for p in j2text.render_paths(N, mac.body, limit=20000, macros=ts.macros(t)):
+            n += 1
+            text = p.text
+            for name, key in p.ph:
+                key = key if isinstance(key, str) else xs(key)
+                if key.startswith("assert("):
+                    text = text.replace(name, "(" + " ".join(re.findall(r"'([^']*)'", key)) + ")")
+            und = sorted(set(_c_undeclared(text, params)))
+            label = " & ".join(("" if pol else "not ") + c for c, pol in p.conds if "for " not in c)[-110:] or "always"
+            ctx.ob(R, t.rel, f"c: {top} [{label}]: every local used is declared on this path", not und,
+                   "" if not und else f"{und} used without a declaration on this path (declared only inside a branch this path does not take): the header does not "
+                   "compile for the inputs that take it", mac.lineno)
+    ctx.floor(R, n, 12)
+
+
+def rule_py_ctor_agree(ctx, ts):
+    R = "R-C06-NAME-AGREE"
+    # Python sibling of the rule: the generated class declares one keyword parameter per field of `fields_except_padding` (base.j2) and the
+    # generated deserializer calls the constructor with keyword arguments; both enumerations must be the same unfiltered field list and
+    # both must spell the keyword `<field> | id` - a padding field has an empty name, so an argument built from any wider list renders
+    # `=<value>`, a syntax error in every module whose type has a void field.
+    N = ts.nodes
+    base = ts.get("py", "base.j2")
+    ds = ts.macro(base, "data_schema")
+    decl = None
+    seen_init = False
+    for node in ds.find_all((N.TemplateData, N.For)):
+        if isinstance(node, N.TemplateData) and "def __init__(self" in node.data:
+            seen_init = True
+        elif isinstance(node, N.For) and seen_init and decl is None:
+            decl = node
+    if decl is None:
+        raise AnalysisError("anchor missing: the parameter loop of __init__ in py/templates/base.j2")
+    ok = xs(decl.iter).endswith(".fields_except_padding") and decl.test is None
+    ctx.ob(R, base.rel, "py: __init__ declares one keyword parameter per field of fields_except_padding", ok, xs(decl.iter), decl.lineno)
+    des = ts.get("py", "deserialization.j2")
+    dm = ts.macro(des, "deserialize")
+    n = 0
+    for lp in dm.find_all(N.For):
+        outs = [o for o in lp.body if isinstance(o, N.Output)]
+        kw = None
+        for o in outs:
+            for i, e in enumerate(o.nodes[:-1]):
+                nxt = o.nodes[i + 1]
+                if isinstance(e, N.Filter) and e.name == "id" and isinstance(nxt, N.TemplateData) and nxt.data.startswith("=") and not nxt.data.startswith("=="):
+                    kw = e
+        if kw is None or any("self = " in d.data for d in lp.find_all(N.TemplateData)):
+            continue      # not a keyword-argument list (the union branch builds one call per alternative inside its loop)
+        n += 1
+        it = xs(lp.iter)
+        tv = xs(lp.target)
+        ok = it.endswith(".fields_except_padding") and lp.test is None and xs(kw.node) == tv
+        ctx.ob(R, des.rel, "py: deserialize passes one keyword argument per field of fields_except_padding (the parameters __init__ declares)", ok,
+               "" if ok else f"the argument list is enumerated from `{it}`" + (f" if {xs(lp.test)}" if lp.test is not None else "") + f" with keyword `{xs(kw)}`: "
+               "an entry for a padding field renders `=<value>` (its name is empty) and the generated module does not parse; a missing one leaves a required "
+               "parameter out", lp.lineno)
+    ctx.floor(R + ":py-ctor", n, 1)
+
+
 def run(ctx):
     ctx.explanation = (
         "C06 is decided as exhaustiveness over template paths: every name a built-in template can reference on any "
@@ -1139,3 +1258,5 @@ def run(ctx):
     rule_partial_filters(ctx, ts, px)
     rule_allocator_kinds(ctx, px)
     rule_py_imports(ctx, px)
+    rule_c_scope(ctx, ts)
+    rule_py_ctor_agree(ctx, ts)
